@@ -483,7 +483,7 @@ def render_probe(text, oe, as_unicode):
         return ("exc",)
 
 
-def module_roundtrip(enc, style):
+def module_roundtrip(enc, style, future=False):
     """template file in encoding `enc` (declared by `style`) compiled through a module directory, rendered, then reloaded
     from the module file by a fresh Template: returns list of (stage, rendered, expected)"""
     import os
@@ -503,6 +503,20 @@ def module_roundtrip(enc, style):
         bom = codecs.BOM_UTF8
         src = ("## -*- coding: utf-8 -*-\n" if style == "bom+comment" else "") + body + "${'!'}\n"
         kw = {}
+    expect_error = False
+    if style in ("bom+input_encoding", "bom+contradicting-comment"):
+        import codecs
+        if enc != "utf-8":
+            return []
+        bom = codecs.BOM_UTF8
+        if style == "bom+input_encoding":
+            # a UTF-8 file with a byte-order mark on a site whose input_encoding is a single-byte codec: the mark wins
+            src, kw = body + "${'!'}\n", {"input_encoding": "latin-1"}
+        else:
+            # the mark contradicted by the comment: a compile error on every path
+            src, kw, expect_error = "## -*- coding: iso-8859-1 -*-\n" + body + "${'!'}\n", {}, True
+    if future:
+        kw["future_imports"] = ["annotations"]
     if style == "conflicting":
         # the comment names the file's real encoding, input_encoding another one: the comment takes precedence
         src = "## -*- coding: %s -*-\n" % enc + body + "${'!'}\n"
@@ -532,6 +546,8 @@ def module_roundtrip(enc, style):
         out.append(("lookup-memory", got, body + "!\n"))
     finally:
         shutil.rmtree(base, ignore_errors=True)
+    if expect_error:
+        out = [(st, ("raised CompileException" if g.startswith("raised CompileException") else g), "raised CompileException") for st, g, _w in out]
     return out
 
 
